@@ -1,6 +1,8 @@
 package main
 
 import (
+	"strings"
+
 	"github.com/gcash/bchd/bchec"
 	"github.com/gcash/bchd/chaincfg"
 	"github.com/gcash/bchd/chaincfg/chainhash"
@@ -44,6 +46,29 @@ func execC06(c Case) string {
 	case "wifdec":
 		d, err := bchutil.DecodeWIF(string(unhx(a[0])))
 		return wifObs(d, err)
+	case "wifhist": // wifhist <netid> <compress> <key> <steps>: one WIF value whose exported fields change between calls
+		priv, _ := bchec.PrivKeyFromBytes(bchec.S256(), unhx(a[2]))
+		w, err := bchutil.NewWIF(priv, &chaincfg.Params{PrivateKeyID: byte(atoi(a[0]))}, a[1] == "1")
+		if err != nil {
+			return "ctorerr"
+		}
+		res := []string{}
+		for _, st := range splitOr(a[3], ",") {
+			switch st[0] {
+			case 'S':
+				res = append(res, hs(w.String()))
+			case 'P':
+				res = append(res, hx(w.SerializePubKey()))
+			case 'K':
+				w.PrivKey, _ = bchec.PrivKeyFromBytes(bchec.S256(), unhx(st[1:]))
+			case 'C':
+				w.CompressPubKey = st[1] == '1'
+			case 'D':
+				d, err := bchutil.DecodeWIF(w.String())
+				res = append(res, wifObs(d, err))
+			}
+		}
+		return joinOr(res, " ")
 	}
 	panic("harness: op")
 }
@@ -113,6 +138,24 @@ func genC06(r *Rng, tier string, emit func(Case)) {
 			raw[j] = b58alpha[int(raw[j])%58]
 		}
 		e("wifdec", "raw", hx(raw))
+	}
+	for i := 0; i < n/3; i++ {
+		steps := []string{}
+		for j := 2 + r.Intn(8); j > 0; j-- {
+			switch r.Intn(6) {
+			case 0, 1:
+				steps = append(steps, "S")
+			case 2:
+				steps = append(steps, "P")
+			case 3:
+				steps = append(steps, "K"+hx(genScalar(r)))
+			case 4:
+				steps = append(steps, "C"+b2s(r.Bool()))
+			case 5:
+				steps = append(steps, "D")
+			}
+		}
+		e("wifhist", "history", itoa(ids[r.Intn(len(ids))]), b2s(r.Bool()), hx(genScalar(r)), strings.Join(steps, ","))
 	}
 	// edge scalars
 	for _, k := range [][]byte{make([]byte, 32), secpN, bytesFF(32)} {
